@@ -39,6 +39,15 @@ def cases(tier, seed):
                         mrho=float(np.round(10 ** rng.uniform(2.5, 4), 1)), wwr=float(np.round(rng.uniform(1.0, 2.5), 3)),
                         fuel_mass=float(np.round(10 ** rng.uniform(2, 5), 1)), reserve=float(np.round(rng.choice([0.0, rng.uniform(100, 2e4)]), 1)),
                         fuel_density=float(np.round(rng.uniform(700, 850), 1)), fem_origin=float(np.round(rng.uniform(0.1, 0.7), 3))))
+    # the same resultants through the repository's own structures-only group (SpatialBeamAlone) for every combination of load sources
+    n = 16 if tier == "quick" else 320
+    for k in range(n):
+        half = "full" if k % 3 == 0 else "left"
+        spec = M.random_spec(rng, half=half, nx=2, ny=int(rng.integers(3, 8)))
+        fem = "wingbox" if k % 4 != 3 else "tube"
+        out.append(dict(kind="alone", mesh=spec, fem=fem, relief=bool(k % 2), fuel=bool(fem == "wingbox" and (k // 2) % 2 == 0), npm=int([0, 0, 1, 2][(k // 4) % 4]),
+                        seed=int(rng.integers(1 << 30)), load_factor=float(np.round(rng.choice([2.5, -1.0, rng.uniform(0.2, 4)]), 3)),
+                        fuel_mass=float(np.round(10 ** rng.uniform(2, 4.5), 1)), _cost=2))
     return out
 
 
@@ -211,9 +220,48 @@ def run_loads(c, o):
     o.info = dict(ny=ny, mass=float(em_ref.sum()))
 
 
+def run_alone(c, o):
+    rng = np.random.default_rng(c["seed"])
+    sym = c["mesh"]["half"] != "full"
+    sd = dict(name="wing", symmetry=sym, mesh=c["mesh"], fem_model_type=c["fem"], struct_weight_relief=c["relief"], distributed_fuel_weight=c["fuel"],
+              exact_failure_constraint=False)
+    case = dict(surface=sd, load_factor=c["load_factor"], fuel_mass=c["fuel_mass"])
+    npm = c["npm"]
+    if npm:
+        sd["n_point_masses"] = npm
+        b2 = c["mesh"]["span"] / 2
+        case.update(point_masses=[float(x) for x in 10 ** rng.uniform(1, 3.5, npm)], engine_thrusts=[float(x) for x in 10 ** rng.uniform(2, 4.5, npm)],
+                    point_mass_locations=[[float(rng.uniform(-1, 2)), float(rng.uniform(-0.9, -0.1) * b2), float(rng.uniform(-0.5, 0.5))] for _ in range(npm)])
+    prob = zoo.build_struct(case)
+    ext = np.array(prob.get_val("loads"))
+    zoo.run(prob)
+    surf = prob._oas_surfaces[0]
+    tl = np.array(prob.get_val("struct_states.total_loads"))
+    n = c["load_factor"]
+    half = 0.5 if sym else 1.0
+    Fz = 0.0
+    if c["relief"]:
+        Fz -= float(np.ravel(prob.get_val("structural_mass"))[0]) * half * G0 * n
+    if c["fuel"]:
+        Fz -= (c["fuel_mass"] + surf["Wf_reserve"]) * half * G0 * n
+    Fx = 0.0
+    if npm:
+        Fz -= sum(case["point_masses"]) * G0 * n
+        Fx -= sum(case["engine_thrusts"])
+    own = (tl - ext)[:, :3].sum(axis=0)
+    fs = max(abs(Fz), abs(Fx), 1.0)
+    o.tags = ["alone", c["fem"], "sym" if sym else "full", "relief" if c["relief"] else "norelief", "fuel" if c["fuel"] else "nofuel", "npm=%d" % npm]
+    o.close("alone/net_inertial_and_thrust_force", own, [Fx, 0.0, Fz], rtol=1e-10, scale=fs,
+            what="force resultant of total_loads - external loads in SpatialBeamAlone at load factor %g" % n)
+    o.nontrivial = bool(c["relief"] or c["fuel"] or npm)
+
+
 def run_case(c):
     o = Obs()
-    run_loads(c, o)
+    if c["kind"] == "alone":
+        run_alone(c, o)
+    else:
+        run_loads(c, o)
     return o
 
 
